@@ -458,7 +458,7 @@ def gen_op(ch, rng, run, ndocs):
             a = rng.choice(ats)
         return (k, r, a)
     if k in ('CE', 'CA', 'CR'):
-        nm = name() if k != 'CR' else rng.choice(['amp', 'lt', 'e', 'nope', '1'])
+        nm = name() if k != 'CR' else rng.choice(['amp', 'lt', 'e', 'nope', '1', 'a;b', '#65', 'amp;x', '#x41;zz', '', 'e '])
         return (k, ch.any(('doc',)), nm)
     if k in ('CT', 'CC', 'CD'):
         return (k, ch.any(('doc',)), text())
